@@ -1658,4 +1658,66 @@ theorem empty_family_range_rows_not_written :
 
 end Neg
 
+/-! ## Round 12 — the timestamp of a line under the request's precision -/
+
+section InfluxTimestamp
+open LinVerif.InfluxStream
+
+/-- a coarse precision (s, m, h — and ms): the literal `q` stands for `q * unit` milliseconds -/
+theorem influx_timestamp_coarse (k q : Int) (hk : 0 < k) : toMillis k q = some (q * k) := by
+  have h0 : k ≠ 0 := by omega
+  simp [toMillis, h0, hk]
+
+/-- a fine precision (ns, us; `k` units per millisecond): every literal that lies inside millisecond `ts`
+(`ts * k + rem`, `0 ≤ rem < k`) is stored as `ts` — for all non-negative timestamps -/
+theorem influx_timestamp_fine (k ts rem : Int) (hk : 0 < k) (hts : 0 ≤ ts) (h0 : 0 ≤ rem) (h1 : rem < k) :
+    toMillis (-k) (ts * k + rem) = some ts := by
+  have hk0 : -k ≠ 0 := by omega
+  have hneg : ¬ (-k > 0) := by omega
+  have hnn : 0 ≤ ts * k + rem := by
+    have := Int.mul_nonneg hts (Int.le_of_lt hk)
+    omega
+  simp only [toMillis, hk0, hneg, if_false]
+  congr 1
+  rw [Int.neg_one_mul, Int.tdiv_neg, Int.neg_tdiv, Int.neg_neg, Int.tdiv_eq_ediv_of_nonneg hnn]
+  rw [Int.add_comm, Int.add_mul_ediv_right _ _ (by omega : k ≠ 0), Int.ediv_eq_zero_of_lt h0 h1]
+  omega
+
+/-- the table the code has is the table of the model, and every entry is the line protocol's unit -/
+theorem influxPrecisionTable_expected : Generated.C16.influxPrecisionTable = precisionTable := by decide
+
+theorem influxPrecisionSwitchTag_expected :
+    Generated.C16.influxPrecisionSwitchTag = "strings.ToLower(precision)" := by decide
+
+theorem influxParseTimestampSrc_expected : Generated.C16.influxParseTimestampSrc =
+    "if startAt >= len(buf) { return timeutil.Now(), nil } ; f, err := strconv.ParseInt(string(buf[startAt:]), 10, 64) ; if err != nil { return 0, ErrBadTimestamp } ; switch { case multiplier == 0: return timestamp2MilliSeconds(f), nil case multiplier > 0: return f * multiplier, nil default: return -1 * f / multiplier, nil }" := rfl
+
+/-- with the code's table: one second / minute / hour literal, and every nanosecond / microsecond literal
+inside a millisecond, is stored as that millisecond -/
+theorem influx_precision_units :
+    (∀ q : Int, toMillis (multiplierOf precisionTable "ms") q = some q) ∧
+    (∀ q : Int, toMillis (multiplierOf precisionTable "s") q = some (q * 1000)) ∧
+    (∀ q : Int, toMillis (multiplierOf precisionTable "m") q = some (q * 60000)) ∧
+    (∀ q : Int, toMillis (multiplierOf precisionTable "h") q = some (q * 3600000)) ∧
+    (∀ ts rem : Int, 0 ≤ ts → 0 ≤ rem → rem < 1000 → toMillis (multiplierOf precisionTable "us") (ts * 1000 + rem) = some ts) ∧
+    (∀ ts rem : Int, 0 ≤ ts → 0 ≤ rem → rem < 1000000 →
+      toMillis (multiplierOf precisionTable "ns") (ts * 1000000 + rem) = some ts) := by
+  have e1 : multiplierOf precisionTable "ms" = 1 := by decide
+  have e2 : multiplierOf precisionTable "s" = 1000 := by decide
+  have e3 : multiplierOf precisionTable "m" = 60000 := by decide
+  have e4 : multiplierOf precisionTable "h" = 3600000 := by decide
+  have e5 : multiplierOf precisionTable "us" = -1000 := by decide
+  have e6 : multiplierOf precisionTable "ns" = -1000000 := by decide
+  rw [e1, e2, e3, e4, e5, e6]
+  refine ⟨fun q => ?_, fun q => influx_timestamp_coarse 1000 q (by omega), fun q => influx_timestamp_coarse 60000 q (by omega),
+    fun q => influx_timestamp_coarse 3600000 q (by omega),
+    fun ts rem a b c => influx_timestamp_fine 1000 ts rem (by omega) a b c,
+    fun ts rem a b c => influx_timestamp_fine 1000000 ts rem (by omega) a b c⟩
+  have := influx_timestamp_coarse 1 q (by omega)
+  simpa using this
+
+example : toMillis (multiplierOf precisionTable "ns") 1700000001000999999 = some 1700000001000 := by decide
+
+end InfluxTimestamp
+
 end LinVerif.Props.C16
